@@ -11,6 +11,8 @@ pub struct Tw {
     pub buf: Vec<u8>,
     last: Vec<i16>,
     cur: i16,
+    /// (field path, start, end) of every integer field value written
+    pub marks: Vec<(String, usize, usize)>,
 }
 
 const T_TRUE: u8 = 1;
@@ -52,17 +54,28 @@ impl Tw {
         }
         self.cur = id;
     }
+    fn mark(&mut self, id: i16, start: usize) {
+        let mut path: Vec<String> = self.last.iter().skip(1).map(|x| x.to_string()).collect();
+        path.push(id.to_string());
+        self.marks.push((path.join("."), start, self.buf.len()));
+    }
     pub fn i32(&mut self, id: i16, v: i32) {
         self.field(id, T_I32);
+        let st = self.buf.len();
         varint(&mut self.buf, zigzag(v as i64));
+        self.mark(id, st);
     }
     pub fn i16(&mut self, id: i16, v: i16) {
         self.field(id, T_I16);
+        let st = self.buf.len();
         varint(&mut self.buf, zigzag(v as i64));
+        self.mark(id, st);
     }
     pub fn i64(&mut self, id: i16, v: i64) {
         self.field(id, T_I64);
+        let st = self.buf.len();
         varint(&mut self.buf, zigzag(v));
+        self.mark(id, st);
     }
     pub fn bool(&mut self, id: i16, v: bool) {
         self.field(id, if v { T_TRUE } else { T_FALSE });
@@ -204,6 +217,8 @@ pub struct Column {
 
 #[derive(Clone, Debug, Default)]
 pub struct Layout {
+    /// integer metadata fields: (kind "footer"/"page", field path, absolute start, absolute end)
+    pub int_fields: Vec<(String, String, usize, usize)>,
     /// (start, end) of every page header
     pub page_headers: Vec<(usize, usize)>,
     /// (start, end) of every page body (levels + values)
@@ -623,6 +638,9 @@ pub fn write_file(cols: &[Column], row_group_rows: &[usize]) -> (Vec<u8>, Layout
                 tw.struct_end();
                 tw.end_root();
                 dict_offset = Some(out.len());
+                for (p, a, b) in &tw.marks {
+                    layout.int_fields.push(("dictpage".into(), p.clone(), out.len() + a, out.len() + b));
+                }
                 layout.page_headers.push((out.len(), out.len() + tw.buf.len()));
                 total_uncomp += tw.buf.len() + body.len();
                 out.extend(&tw.buf);
@@ -686,6 +704,9 @@ pub fn write_file(cols: &[Column], row_group_rows: &[usize]) -> (Vec<u8>, Layout
                     body = b;
                 }
                 tw.end_root();
+                for (p, a, b) in &tw.marks {
+                    layout.int_fields.push(("page".into(), p.clone(), out.len() + a, out.len() + b));
+                }
                 layout.page_headers.push((out.len(), out.len() + tw.buf.len()));
                 total_uncomp += tw.buf.len() + body_uncomp_len;
                 out.extend(&tw.buf);
@@ -759,6 +780,9 @@ pub fn write_file(cols: &[Column], row_group_rows: &[usize]) -> (Vec<u8>, Layout
     }
     tw.binary(6, b"verif pqgen");
     tw.end_root();
+    for (p, a, b) in &tw.marks {
+        layout.int_fields.push(("footer".into(), p.clone(), footer_start + a, footer_start + b));
+    }
     out.extend(&tw.buf);
     let flen = (out.len() - footer_start) as u32;
     out.extend_from_slice(&flen.to_le_bytes());
@@ -824,4 +848,33 @@ pub fn expected_type(phys: Phys, logical: Logical) -> String {
         (Phys::ByteArray, _) => "Binary".into(),
         _ => "?".into(),
     }
+}
+
+/// Replace the zigzag-varint integer stored at [start, end) by `value`. The footer length is
+/// corrected when the field lies inside the footer, so that only the targeted field "lies".
+pub fn lie(file: &[u8], layout: &Layout, start: usize, end: usize, value: i64) -> Vec<u8> {
+    let mut enc = Vec::new();
+    varint(&mut enc, zigzag(value));
+    let mut out = file[..start].to_vec();
+    out.extend(&enc);
+    out.extend(&file[end..]);
+    if start >= layout.footer.0 && end <= layout.footer.1 {
+        let n = out.len();
+        let flen = (n - 8 - layout.footer.0) as u32;
+        out[n - 8..n - 4].copy_from_slice(&flen.to_le_bytes());
+    }
+    out
+}
+
+pub fn decode_zigzag_varint(b: &[u8]) -> i64 {
+    let mut v: u64 = 0;
+    let mut shift = 0;
+    for x in b {
+        v |= ((x & 0x7f) as u64) << shift;
+        shift += 7;
+        if x & 0x80 == 0 {
+            break;
+        }
+    }
+    ((v >> 1) as i64) ^ -((v & 1) as i64)
 }
